@@ -200,8 +200,9 @@ def main(tier):
     P = TIERS[tier]
     chk.cov["rule"] = ("inputs: TLC enumerates the closed trees of %d catalogue grammars up to a height/node bound (trees to mutate) and all prunings "
                        "(sets of pairwise non-nested nonterminal nodes turned into open leaves) of the trees of a smaller bound (trees to complete); a "
-                       "seeded sample of them (always with the smallest and largest), the bare <start> leaf and two closed trees are completed with 4 fuzzer "
-                       "configurations (GrammarFuzzer / GrammarCoverageFuzzer x nonterminal limits) x %d seeds, both epsilon shapes; closed trees are "
+                       "seeded sample of them (always with the smallest and largest), the bare <start> leaf and two closed trees are completed by GrammarFuzzer "
+                       "and GrammarCoverageFuzzer with default settings x %d seeds, both epsilon shapes (family expand-default-settings), and a few of them with "
+                       "min_nonterminals = 2 / 3 so that phase 1 of expand_tree runs (separately labelled family expand-min-nonterminals); closed trees are "
                        "mutated with Mutator.mutate and with each of replace_subtree_randomly / swap_subtrees / generalize_subtree x %d seeds. One evaluation = "
                        "one (pre, post) step judged by TLC; non-trivial = distinct (grammar, operation, pre) whose post differs from pre"
                        % (len(P["plan"]), P["expand_seeds"], P["mutate_seeds"]))
@@ -209,7 +210,7 @@ def main(tier):
                        "a mutation strategy answering Nothing is not a step (counted as strategy_not_applicable)",
                        "units exceeding the wall-clock cap are unjudged",
                        "units with min_nonterminals > 0 run with the interpreter recursion limit lowered to 400 (their trees are < 60 deep) so that a "
-                       "diverging expansion ends in its RecursionError quickly; the replay file reproduces it at the default limit as well"]
+                       "diverging expansion ends in its RecursionError quickly (at the default limit the same call ends in the same error after several seconds)"]
     chk.cov["bounds"] = {k: list(v) for k, v in P["plan"].items()}
     run(chk, None)
     return chk.finish(exhaustive=False)
